@@ -7,7 +7,7 @@ import os
 import re
 from core import *
 
-TOKENS = {'eq': 'PartialEq', 'ne': 'PartialEq', 'partial_cmp': 'PartialOrd', 'cmp': 'Ord', 'hash': 'Hash'}
+TOKENS = {'eq': 'PartialEq', 'ne': 'PartialEq', 'partial_cmp': 'PartialOrd', 'cmp': 'Ord', 'hash': 'Hash', 'serialize': 'Serialize'}
 
 
 def derived_impls(ctx, prog, name, file_rx, need_files, replay, methods=('eq', 'ne')):
